@@ -317,6 +317,55 @@ Definition decode (fuel : nat) (file : N -> option (list N)) (doff : N) (dn : na
       end
   end.
 
+(* ---------- several files: the merged dictionary of the reader ----------------
+   read_dictionary keeps one dictionary for all the files it opens: an entry of a
+   file that has the info length, the name and the convertor of an entry already
+   known (of the same file or of an earlier one) is not added again; dico_map
+   translates the local index of the file into the index of the merged
+   dictionary, and every later lookup (DBP_EVENT_LENGTH, dbp_event_info_len,
+   dbp_file_get_dictionary) goes through it. *)
+Fixpoint bytes_eqb (a b : list N) : bool :=
+  match a, b with
+  | [], [] => true
+  | x :: a', y :: b' => (x =? y) && bytes_eqb a' b'
+  | _, _ => false
+  end.
+Definition key_eqb (a b : kent) : bool :=
+  (k_ilen a =? k_ilen b) && bytes_eqb (k_name a) (k_name b) && bytes_eqb (cstr (k_conv a)) (cstr (k_conv b)).
+Fixpoint find_key (k : kent) (m : list kent) (i : nat) : nat :=
+  match m with [] => i | x :: r => if key_eqb k x then i else find_key k r (S i) end.
+Definition merge_one (st : list kent * list nat) (k : kent) : list kent * list nat :=
+  let i := find_key k (fst st) 0 in
+  (if Nat.eqb i (length (fst st)) then fst st ++ [k] else fst st, snd st ++ [i]).
+Definition merge_file (m : list kent) (local : list kent) : list kent * list nat :=
+  fold_left merge_one local (m, []).
+Fixpoint merge_files (m : list kent) (files : list (list kent)) : list kent * list (list nat) :=
+  match files with
+  | [] => (m, [])
+  | l :: r => let (m1, mp) := merge_file m l in
+              let (m2, mps) := merge_files m1 r in (m2, mp :: mps)
+  end.
+Definition kent0 : kent := mk_kent [] [] [] 0.
+(* the dictionary of a file as the reader presents it: dbp_file_get_dictionary(file, j) *)
+Definition presented (merged : list kent) (mp : list nat) : list kent := map (fun i => nth i merged kent0) mp.
+
+(* [decode] in two steps, the dictionary used for the events being a parameter *)
+Definition decode_keys (file : N -> option (list N)) (doff : N) (dn : nat) : option (list kent) :=
+  match file doff with
+  | None => None
+  | Some db => dec_table parse_key file dn db 0 (Z.of_N (b_nb db))
+  end.
+Definition decode_rest (fuel : nat) (file : N -> option (list N)) (toff : N) (tn : nat) (keys : list kent)
+  : option (list (thread * list event)) :=
+  match file toff with
+  | None => None
+  | Some tb =>
+      match dec_table parse_thread file tn tb 0 (Z.of_N (b_nb tb)) with
+      | None => None
+      | Some ths => Some (map (fun t => (t, dec_chain fuel file (map k_ilen keys) (t_first t))) ths)
+      end
+  end.
+
 (* what a faithful read-back of a profile is *)
 Definition profile_view (avail : N) (alloc : nat -> nat -> N) (d : list kent) (ss : list stream)
   : list kent * list (thread * list event) :=
